@@ -39,12 +39,11 @@ func VerifLemma_C13E_PluginFileName() {
 	if plain {
 		verifAssert(err == nil, "a plain generated file name is written")
 	}
-	if err != nil {
-		verifAssert(len(paths) == 2, "a rejected file name writes nothing")
-		return
+	if err == nil {
+		verifCover("accepted")
+		verifAssert(len(paths) == 3, "an accepted file name creates exactly one object")
 	}
-	verifCover("accepted")
-	verifAssert(len(paths) == 3, "an accepted file name creates exactly one object")
+	// accepted or rejected: whatever exists besides the sentinels lies under the output directory
 	for _, p := range paths {
 		if p == "sentinel" || p == "other/sentinel" {
 			continue
